@@ -585,8 +585,7 @@ theorem ok_updateEcShards {c : Core} {N : Nat} {w : Prop} (h : Ok c N w) (s : Na
     · rfl
   · rfl
 @[simp] theorem registerLayout_core (st : St) (v : VInfo) (s : Nat) : (registerLayout st v s).toCore = st.toCore := by
-  simp only [registerLayout, ensureWritables_core]
-  split <;> simp
+  simp [registerLayout, registerVolume]
 @[simp] theorem unregisterLayout_core (st : St) (v : VInfo) (s : Nat) : (unregisterLayout st v s).toCore = st.toCore := by
   simp only [unregisterLayout]
   split
